@@ -1070,10 +1070,10 @@ func min_max(args py.Tuple, kwargs py.StringDict, name string) (py.Object, error
 	var cmp func(a py.Object, b py.Object) (py.Object, error)
 	if name == "min" {
 		format = "|$OO:min"
-		cmp = py.Le
+		cmp = py.Lt // strict: the first of equal items wins
 	} else if name == "max" {
 		format = "|$OO:max"
-		cmp = py.Ge
+		cmp = py.Gt // strict: the first of equal items wins
 	}
 	var defaultValue py.Object
 	var keyFunc py.Object
